@@ -78,7 +78,9 @@ func (f *WithOpenFile) Call(s *slip.Scope, args slip.List, depth int) (result sl
 	s2.Let(sym, file)
 	args = args[1:]
 	for i := range args {
-		result = slip.EvalArg(s2, args, i, d2)
+		if result = slip.EvalArg(s2, args, i, d2); slip.IsExit(result) {
+			break
+		}
 	}
 	return
 }
